@@ -21,10 +21,11 @@ type c14Sc struct {
 	PadKind string           `json:"pad_kind"` // text | comment
 	// AlignAt: additionally pad before one top-level segment so that the segment starts at these absolute
 	// offsets (values around powers of two and other round numbers: window / size-class edges)
-	AlignAt  []int `json:"align_at,omitempty"`
-	AlignSeg int   `json:"align_seg,omitempty"`
-	ViaFS    bool  `json:"via_fs,omitempty"`       // templates come from a FileSystemLoader on the simulated disk instead of RegisterString
-	ViaComp  bool  `json:"via_compiled,omitempty"` // templates are compiled and serialised on one engine and reach the rendering engine as bytes
+	AlignAt  []int    `json:"align_at,omitempty"`
+	AlignSeg int      `json:"align_seg,omitempty"`
+	ViaFS    bool     `json:"via_fs,omitempty"`       // templates come from a FileSystemLoader on the simulated disk instead of RegisterString
+	Size     *c14Size `json:"size,omitempty"`         // structure-size leg (see prop_c14_size.go)
+	ViaComp  bool     `json:"via_compiled,omitempty"` // templates are compiled and serialised on one engine and reach the rendering engine as bytes
 }
 
 type propC14 struct{}
@@ -94,6 +95,15 @@ func (propC14) Gen(seed uint64, ex map[string]bool) interface{} {
 	vec(map[string]int{"tokenslice.pool_min_cap": 1, "tokenslice.pool_max_cap": inf, "tokenslice.direct_alloc_threshold": 1})
 	if r.P(50) {
 		vec(map[string]int{"tokenslice.pool_min_cap": 1, "tokenslice.pool_max_cap": inf, "parser.optimized_threshold": 0, "tokenizer.min_capacity": 2})
+	}
+	if r.P(40) {
+		z := &c14Size{Family: r.N(c14SizeFamilies), Var: r.N(7)}
+		z.Ns = append(z.Ns, pick(r, []int{0, 1, 2}))
+		k := r.Range(2, 5)
+		for i := 0; i < k; i++ {
+			z.Ns = append(z.Ns, pick(r, c14SizeNs[3:]))
+		}
+		sc.Size = z
 	}
 	if r.P(34) && !ex["real-padding"] {
 		sc.PadKind = pick(r, []string{"text", "comment", "text", "lines", "manycomments", "constructs", "nesting"})
@@ -295,6 +305,13 @@ func (propC14) Run(scI interface{}) *Outcome {
 					Detail: fmt.Sprintf("main template %q\n Render:   %s\n RenderTo: %s", tail(mainSrc, 400), tail(base.Out, 300), tail(got.Out, 300)+" "+got.Err)}
 				return o
 			}
+		}
+	}
+	if sc.Size != nil {
+		if v := c14SizeLeg(sc, o, &fp); v != nil {
+			o.FP = fp
+			o.Viol = v
+			return o
 		}
 	}
 	// seam-fidelity leg: real padding
